@@ -304,6 +304,52 @@ func (h *c40) concCase(i int64, r *rand.Rand) {
 		}
 	}
 
+	// (b) DISTINCT signers / keys, one per goroutine, used at the same time as the shared one
+	type ownSigner struct {
+		signer ssh.Signer
+		wp     *fm.Pub
+		algo   string
+		data   []byte
+		sig    *ssh.Signature
+		err    error
+		vdata  []byte
+		vsig   *ssh.Signature
+		vgot   error
+		vdone  bool
+	}
+	own := make([]*ownSigner, G)
+	if signer != nil {
+		for g := 0; g < G; g++ {
+			var p crypto.Signer
+			switch pk := priv.(type) {
+			case *rsa.PrivateKey:
+				p = pk // no RSA generation under the race detector: a distinct Signer object over the same key
+			case *ecdsa.PrivateKey:
+				p = ecKey(r, pk.Curve)
+			default:
+				p = edKey(r)
+			}
+			sg, err := ssh.NewSignerFromKey(p)
+			if err != nil {
+				continue
+			}
+			blob, _ := fm.BlobFromCrypto(p.Public())
+			owp, _ := fm.ParsePub(blob)
+			oa := fm.FormatsFor(owp.Type)
+			o := &ownSigner{signer: sg, wp: owp, algo: oa[g%len(oa)], data: mon.Bytes(r, r.IntN(200)), vdata: mon.Bytes(r, 1+r.IntN(100))}
+			o.vsig = &ssh.Signature{Format: oa[(g+1)%len(oa)]}
+			switch k := p.(type) {
+			case *rsa.PrivateKey:
+				o.vsig.Blob, _ = fm.SignRSA(k, o.vsig.Format, o.vdata)
+			case *ecdsa.PrivateKey:
+				o.vsig.Blob, _ = fm.SignEC(k, o.vdata)
+			case ed25519.PrivateKey:
+				o.vsig.Blob = ed25519.Sign(k, o.vdata)
+			}
+			own[g] = o
+		}
+	}
+
 	// ---- concurrent phase ----------------------------------------------------------------
 	var ov overlap
 	marshalBad := atomic.Int32{}
@@ -311,6 +357,13 @@ func (h *c40) concCase(i int64, r *rand.Rand) {
 	withProcs(single, func() {
 		panics = runTogether(G, func(g int) {
 			for k := 0; k < K; k++ {
+				if o := own[g]; o != nil && k == 1 {
+					ov.enter()
+					o.sig, o.err = o.signer.(ssh.AlgorithmSigner).SignWithAlgorithm(goschedRand{}, o.data, o.algo)
+					o.vgot = o.signer.PublicKey().Verify(o.vdata, o.vsig)
+					o.vdone = true
+					ov.leave()
+				}
 				if signer != nil {
 					st := signs[g][k]
 					ov.enter()
@@ -385,6 +438,31 @@ func (h *c40) concCase(i int64, r *rand.Rand) {
 			default:
 				m.Count("conc_signatures_checked", 1)
 			}
+		}
+	}
+	for g, o := range own {
+		if o == nil || !o.vdone {
+			continue
+		}
+		w := copyWit(base)
+		w["goroutine"], w["algorithm"], w["data"] = g, o.algo, mon.FullHex(o.data)
+		switch {
+		case o.err != nil:
+			w["error"] = o.err.Error()
+			m.Violation("concurrent-sign-differs:distinct:SignWithAlgorithm/"+kind, w)
+		case o.sig.Format != o.algo:
+			m.Violation("concurrent-signature-algorithm-differs:distinct:SignWithAlgorithm/"+kind, w)
+		case fm.Verify(o.wp, o.sig.Format, o.sig.Blob, o.sig.Rest, o.data) != nil:
+			w["sig_blob"] = mon.FullHex(o.sig.Blob)
+			m.Violation("concurrent-signature-differs:distinct:SignWithAlgorithm/"+kind, w)
+		default:
+			m.Count("conc_distinct_signatures_checked", 1)
+		}
+		if o.vgot != nil {
+			w["verify_error"] = o.vgot.Error()
+			m.Violation("concurrent-verify-differs:distinct:Verify/"+kind, w)
+		} else {
+			m.Count("conc_distinct_verifies_checked", 1)
 		}
 	}
 	for g := range vers {
@@ -500,11 +578,71 @@ func (h *c39) concCase(i int64, r *rand.Rand) {
 			datas[g] = append(datas[g], mon.Bytes(r, r.IntN(100)))
 		}
 	}
+	// (b) DISTINCT inputs, one per goroutine, used at the same time as the shared ones:
+	// package-level functions must not keep state between calls
+	type ownFile struct {
+		key        crypto.PrivateKey
+		pemb, pass []byte
+		outer      []byte
+		ps         *fm.PrivSection
+		blob       []byte
+		privOK     bool
+		err        error
+		marshaled  []byte
+		marshalErr error
+	}
+	own := make([]*ownFile, G)
+	for g := 0; g < G; g++ {
+		o := &ownFile{}
+		if typ == "rsa" {
+			o.key = fixedRSA() // no RSA generation under the race detector: same key, own comment/check ints/passphrase
+		} else {
+			o.key = pickKey(r, typ)
+		}
+		oe := encSpec{cipher: mode}
+		if mode != "none" {
+			p, _ := genPass(r, 1)
+			oe.pass, oe.salt, oe.rounds = []byte(p), mon.Bytes(r, 16), 1
+		}
+		o.ps, o.outer = privFields(o.key, fmt.Sprintf("own-%d", g), r.Uint32())
+		oct, okdf, oopts, err := oe.seal(o.ps.MarshalPadded(oe.block()))
+		if err != nil {
+			m.Inconclusive("seal: " + err.Error())
+			return
+		}
+		o.pemb = fm.EncodePEM((&fm.Container{Cipher: oe.cipher, KDF: okdf, KDFOpts: oopts, NKeys: 1, Pubs: [][]byte{o.outer}, Priv: oct}).Marshal())
+		o.pass = oe.pass
+		own[g] = o
+	}
 	var ov overlap
 	var panics []string
 	withProcs(single, func() {
 		panics = runTogether(G, func(g int) {
 			for k := 0; k < K; k++ {
+				if k == 0 {
+					o := own[g]
+					var raw any
+					ov.enter()
+					if mode == "none" {
+						raw, o.err = ssh.ParseRawPrivateKey(o.pemb)
+					} else {
+						raw, o.err = ssh.ParseRawPrivateKeyWithPassphrase(o.pemb, o.pass)
+					}
+					ov.leave()
+					if o.err == nil {
+						if cp := cryptoPublic(raw); cp != nil {
+							o.blob, _ = fm.BlobFromCrypto(cp)
+						}
+						o.privOK = privEqual(raw, o.ps)
+					}
+					ov.enter()
+					blk, e := ssh.MarshalPrivateKey(o.key, "conc")
+					ov.leave()
+					o.marshalErr = e
+					if e == nil {
+						o.marshaled = pem.EncodeToMemory(blk)
+					}
+				}
 				// parse the shared bytes
 				var pr parseRes
 				ov.enter()
@@ -582,6 +720,25 @@ func (h *c39) concCase(i int64, r *rand.Rand) {
 	}
 	if !bytes.Equal(pemb, pemSnap) || !bytes.Equal(pass, passSnap) || !bytes.Equal(marshalPass, marshalPassSnap) {
 		m.Violation("concurrent-input-modified:shared:ParsePrivateKey", base)
+	}
+	for g, o := range own {
+		w := copyWit(base)
+		w["goroutine"], w["pem"], w["passphrase_hex"] = g, string(o.pemb), mon.FullHex(o.pass)
+		if o.err != nil || !bytes.Equal(o.blob, o.outer) || !o.privOK {
+			w["error"], w["got_public_key"] = fmt.Sprint(o.err), mon.FullHex(o.blob)
+			m.Violation("concurrent-parse-differs:distinct:ParseRawPrivateKey", w)
+		} else {
+			m.Count("conc_distinct_parses_checked", 1)
+		}
+		if o.marshalErr != nil {
+			w["error"] = o.marshalErr.Error()
+			m.Violation("concurrent-marshal-differs:distinct:MarshalPrivateKey", w)
+		} else if why := checkMarshaled(o.marshaled, o.outer, o.ps); why != "" {
+			w["output"], w["why"] = string(o.marshaled), why
+			m.Violation("concurrent-marshal-differs:distinct:MarshalPrivateKey", w)
+		} else {
+			m.Count("conc_distinct_marshals_checked", 1)
+		}
 	}
 	for g := range parses {
 		for _, pr := range parses[g] {
